@@ -169,7 +169,7 @@ def shard_pipeline(sh, part):
     import outrank.task_ranking as tr
     cr = pipe.fresh_core_ranking()
     tr.estimate_importances_minibatches = cr.estimate_importances_minibatches
-    tr.Pool = lambda n: pipe.SyncPool()
+    tr.Pool = lambda *a_, **k_: pipe.SyncPool()
     real = tr.rank_features_3MR
     seen = []
 
